@@ -23,9 +23,24 @@ import (
 func genSeq(r *rand.Rand) WL {
 	w := WL{Mode: "seq"}
 	genGraph(r, &w)
+	if r.IntN(2) == 0 {
+		// a tree rooted at node 1: results under skip/limit are then independent of visit order
+		w.Nodes = 2 + r.IntN(7)
+		w.Edges = nil
+		for i := 2; i <= w.Nodes; i++ {
+			w.Edges = append(w.Edges, Edge{ID: 100 + i, From: 1 + r.IntN(i-1), To: i})
+		}
+		w.Root = 1
+	}
 	w.Driver = []string{"paths", "nodes", "terminals", "paths", "intermediary"}[r.IntN(5)]
 	w.Cut = r.IntN(2) == 0 // direction: true = outbound, false = inbound
-	if r.IntN(3) == 0 {
+	if len(w.Edges) > 0 && w.Edges[0].ID == 102 && !w.Cut {
+		// inbound traversal of a tree: flip the edges so that the root still reaches everything
+		for i := range w.Edges {
+			w.Edges[i].From, w.Edges[i].To = w.Edges[i].To, w.Edges[i].From
+		}
+	}
+	if r.IntN(2) == 0 {
 		w.Depth = r.IntN(4)   // skip
 		w.Workers = r.IntN(4) // limit (0 = none)
 	} else {
@@ -34,7 +49,29 @@ func genSeq(r *rand.Rand) WL {
 	if r.IntN(5) == 0 {
 		w.Fault = Fault{Kind: "cursor_err", K: 1 + r.IntN(5)}
 	}
+	w.MemHuge = r.IntN(2) == 0 // seq mode: a node filter (even ids only) is passed to the helpers that take one
 	return w
+}
+
+// treeShaped: every node reachable from the root (except the root) is entered by exactly one edge
+// from a reachable node and the root by none; then skip/limit results do not depend on visit order.
+func treeShaped(w WL, outbound bool) bool {
+	reach := reachable(w, outbound)
+	indeg := map[int]int{}
+	for n := range reach {
+		for _, e := range adj(w, n, outbound) {
+			indeg[e.To]++
+		}
+	}
+	for n := range reach {
+		if n == w.Root && indeg[n] != 0 {
+			return false
+		}
+		if n != w.Root && indeg[n] != 1 {
+			return false
+		}
+	}
+	return true
 }
 
 func adj(w WL, n int, outbound bool) []Edge {
@@ -131,7 +168,11 @@ func execSeq(t *testing.T, w WL, cfg simrt.Config) simh.Outcome {
 				case "paths":
 					paths, err = ops.TraversePaths(tx, plan)
 				case "nodes":
-					nodes, err = ops.AcyclicTraverseNodes(tx, plan, nil)
+					var nf ops.NodeFilter
+					if w.MemHuge {
+						nf = func(n *graph.Node) bool { return n.ID%2 == 0 }
+					}
+					nodes, err = ops.AcyclicTraverseNodes(tx, plan, nf)
 				case "terminals":
 					nodes, err = ops.AcyclicTraverseTerminals(tx, plan)
 				case "intermediary":
@@ -180,17 +221,39 @@ func execSeq(t *testing.T, w WL, cfg simrt.Config) simh.Outcome {
 			o.Class, o.Detail = "oracle:seq_paths", fmt.Sprintf("TraversePaths(skip=%d, limit=%d) returned %d paths, plan defines %d", skip, limit, len(paths), want)
 		}
 	case "nodes":
+		pass := func(n int) bool { return !w.MemHuge || n%2 == 0 }
 		if skip == 0 && limit == 0 {
 			for n := range reach {
-				if !nodes.Contains(mkNode(n)) {
+				if pass(n) && !nodes.Contains(mkNode(n)) {
 					o.Class, o.Detail = "oracle:seq_nodes", fmt.Sprintf("AcyclicTraverseNodes misses reachable node %d", n)
 				}
 			}
 		}
 		for id := range nodes {
-			if !reach[int(id)] {
-				o.Class, o.Detail = "oracle:seq_nodes", fmt.Sprintf("AcyclicTraverseNodes returned node %d, which is not reachable from the root", id)
+			if !reach[int(id)] || !pass(int(id)) {
+				o.Class, o.Detail = "oracle:seq_nodes", fmt.Sprintf("AcyclicTraverseNodes returned node %d, which is not reachable from the root or is rejected by the node filter", id)
 			}
+		}
+		if o.Class == "" && treeShaped(w, outbound) {
+			// every candidate is offered exactly once: the plan defines how many are collected
+			matching := 0
+			for n := range reach {
+				if n != w.Root && pass(n) {
+					matching++
+				}
+			}
+			want := max(0, matching-skip)
+			if limit > 0 && want > limit {
+				want = limit
+			}
+			got := len(nodes)
+			if nodes.Contains(mkNode(w.Root)) {
+				got--
+			}
+			if got != want {
+				o.Class, o.Detail = "oracle:seq_nodes", fmt.Sprintf("AcyclicTraverseNodes(skip=%d, limit=%d, filter=%v) collected %d nodes besides the root on a tree-shaped graph with %d matching candidates; the plan defines %d", skip, limit, w.MemHuge, got, matching, want)
+			}
+			counters["seq_nodes_exact_count"]++
 		}
 	case "terminals":
 		for id := range nodes {
